@@ -75,12 +75,19 @@ def absorb(res: dict, out: dict, case, case_id: str, max_samples: int = 6):
     for v in out.get("violations", ()):
         v = dict(v)
         v["case_id"] = case_id
-        if len(res["violations"]) < 40:
+        # keep a few witnesses per (kind, mechanism) so that a frequent known finding can
+        # never crowd out a different violation
+        gk = f"{v.get('kind')}|{v.get('mech')}"
+        seen = res.setdefault("_stored_per_group", {})
+        if seen.get(gk, 0) < 4:
+            seen[gk] = seen.get(gk, 0) + 1
             v["case"] = v.get("case") or case
             res["violations"].append(v)
         else:
             bump(res["counters"], "violations_not_stored")
         bump(res["counters"], "violations_total")
+        if v.get("mech"):
+            bump(res["counters"], f"violations_mech_{v['mech']}")
 
 
 def run_worker(args) -> int:
@@ -128,6 +135,7 @@ def run_worker(args) -> int:
     if hasattr(check, "teardown"):
         merge_counters(res["counters"], check.teardown() or {})
     res["sigs"] = sorted(res.pop("_sigset"))
+    res.pop("_stored_per_group", None)
     res["wall_s"] = time.time() - t0
     with open(args.out, "w") as f:
         json.dump(res, f, default=str)
@@ -269,7 +277,8 @@ def run_parent(args) -> int:
     lines = []
     for key, vs in known_seen.items():
         f = open_keys[key]
-        lines.append(f"KNOWN-FINDING: property={pid} {key}: {f.get('what', '')} (observed {len(vs)}x, e.g. {vs[0].get('detail', '')[:160]})")
+        total = merged["counters"].get(f"violations_mech_{key}", len(vs))
+        lines.append(f"KNOWN-FINDING: property={pid} {key}: {f.get('what', '')} (observed {total}x, e.g. {vs[0].get('detail', '')[:160]})")
     if unlisted:
         os.makedirs(os.path.join(VERIF, "replays"), exist_ok=True)
         seen_kinds = {}
